@@ -1,7 +1,7 @@
 (* DividerProofs.v — proofs about the deterministic geometric stages of cell_divider (model: Divider.v) over R:
    the edge/plane intersection, the subdivision of a cut face, the volume bookkeeping of the two daughters, and the
    quaternion rotation to the xy plane (with its degenerate axis). *)
-From Coq Require Import Reals Lra Psatz Arith Bool List.
+From Coq Require Import Reals Lra Lia Psatz Nsatz Arith Bool List.
 From SC Require Import Num Vec3 VecR Geometry Divider.
 Import ListNotations.
 Local Open Scope R_scope.
@@ -113,7 +113,7 @@ Proof.
   intros Hrot.
   destruct rot as [|[|[|[|[|rot]]]]];
     try (eexists; split; [reflexivity|]; (left; reflexivity) || (right; reflexivity)).
-  exfalso. repeat apply Nat.succ_lt_mono in Hrot. inversion Hrot.
+  exfalso. lia.
 Qed.
 
 Lemma sqn_scale (v : vR) (k : R) : sqn (v *v k) = (k * k) * sqn v.
@@ -162,4 +162,118 @@ Proof.
     assert (F3 : face_area NumR (q, a, p) = (s * t) * face_area NumR (a, b, c)).
     { apply face_area_of_multiple; [exact K2|]. subst p q. unfold face_normal_raw. apply vec3_eq; vunfold; ring. }
     rewrite F1, F2, F3. ring.
+Qed.
+
+(* ------------------------------------------------------------------ the quaternion rotation *)
+Ltac munfold :=
+  unfold mdot, mtranspose, midentity, quat_matrix, zaxis, two;
+  cbn [r1 r2 r3 vx vy vz nofZ NumR]; vunfold.
+
+Lemma quat_orthogonal (qw qx qy qz : R) : qw * qw + qx * qx + qy * qy + qz * qz = 1 ->
+  let M := quat_matrix NumR qw qx qy qz in
+  (forall v, mdot NumR (mtranspose M) (mdot NumR M v) = v) /\
+  (forall v, mdot NumR M (mdot NumR (mtranspose M) v) = v).
+Proof.
+  intros Hq M. subst M. split; intros [v1 v2 v3]; munfold; apply vec3_eq; cbn [vx vy vz]; nsatz.
+Qed.
+
+Lemma quat_maps_normal (x y z u : R) : x * x + y * y + z * z = 1 -> u * u * (2 * (1 + z)) = 1 ->
+  mdot NumR (quat_matrix NumR ((1 + z) * u) (y * u) (- x * u) (0 * u)) (mkv x y z) = zaxis NumR.
+Proof.
+  intros Hn Hu. munfold. apply vec3_eq; cbn [vx vy vz]; nsatz.
+Qed.
+
+Lemma unit_z_bounds (x y z : R) : x * x + y * y + z * z = 1 -> z <> -1 -> -1 < z.
+Proof.
+  intros Hn Hz.
+  assert (Hx : 0 <= x * x) by apply Rle_0_sqr. assert (Hy : 0 <= y * y) by apply Rle_0_sqr.
+  destruct (Rle_lt_dec z (-1)) as [Hle|Hlt]; [|exact Hlt]. exfalso.
+  assert (Hs : z < -1) by lra.
+  assert (Hp : 0 < (-1 - z) * (1 - z)) by (apply Rmult_lt_0_compat; lra).
+  replace ((-1 - z) * (1 - z)) with (z * z - 1) in Hp by ring. lra.
+Qed.
+
+Lemma rot_to_z_quat (x y z : R) : x * x + y * y + z * z = 1 -> z <> -1 -> z <> 1 ->
+  exists u, u * u * (2 * (1 + z)) = 1 /\
+    u * u * ((1 + z) * (1 + z) + y * y + x * x) = 1 /\
+    rot_to_z NumR (mkv x y z) = quat_matrix NumR ((1 + z) * u) (y * u) (- x * u) (0 * u).
+Proof.
+  intros Hn Hz Hz1.
+  assert (Hzb : -1 < z) by (eapply unit_z_bounds; eauto).
+  unfold rot_to_z, zaxis, vcross, vdot.
+  cbn [vx vy vz neqb nadd nsub nmul ndiv nsqrt nzero none_ NumR].
+  destruct (Reqb_spec (0 * x + 0 * y + 1 * z) 1) as [He|_]; [exfalso; lra|].
+  set (E := (1 + (x * 0 + y * 0 + z * 1)) * (1 + (x * 0 + y * 0 + z * 1)) + (y * 1 - z * 0) * (y * 1 - z * 0) +
+            (z * 0 - x * 1) * (z * 0 - x * 1) + (x * 0 - y * 0) * (x * 0 - y * 0)).
+  assert (HE : E = 2 * (1 + z)) by (unfold E; lra).
+  assert (HEpos : 0 < E) by lra.
+  set (r := sqrt E).
+  assert (Hrr : r * r = E) by (apply sqrt_sqrt; lra).
+  assert (Hr : r <> 0).
+  { intros H0. rewrite H0 in Hrr. lra. }
+  exists (/ r). split; [|split].
+  - rewrite <- HE, <- Hrr. field. exact Hr.
+  - replace ((1 + z) * (1 + z) + y * y + x * x) with E by (unfold E; ring).
+    rewrite <- Hrr. field. exact Hr.
+  - clearbody r. clear Hrr HE HEpos. clearbody E. f_equal; unfold Rdiv; ring.
+Qed.
+
+Lemma midentity_spec (v : vR) : mdot NumR (midentity NumR) v = v /\ mdot NumR (mtranspose (midentity NumR)) v = v.
+Proof. destruct v as [v1 v2 v3]. split; munfold; apply vec3_eq; cbn [vx vy vz]; ring. Qed.
+
+Lemma rot_to_z_spec : forall n : vR, vsqnorm NumR n = 1 -> vz n <> -1 ->
+  let M := rot_to_z NumR n in
+  mdot NumR M n = zaxis NumR /\ (forall v, mdot NumR (mtranspose M) (mdot NumR M v) = v) /\
+  (forall v, mdot NumR M (mdot NumR (mtranspose M) v) = v).
+Proof.
+  intros [x y z] Hn Hz M. vunfold. cbn [vz] in Hz.
+  destruct (Req_EM_T z 1) as [Hz1|Hz1].
+  - (* n = +z: the identity *)
+    assert (Hxy : x * x + y * y = 0) by (subst z; lra).
+    assert (Hx0 : x = 0 /\ y = 0) by (apply Rplus_sqr_eq_0; unfold Rsqr; exact Hxy).
+    destruct Hx0 as [Hx0 Hy0].
+    assert (HM : M = midentity NumR).
+    { subst M. unfold rot_to_z, zaxis, vdot. cbn [vx vy vz neqb nadd nmul nzero none_ NumR].
+      destruct (Reqb_spec (0 * x + 0 * y + 1 * z) 1) as [_|Hne]; [reflexivity|exfalso; lra]. }
+    rewrite HM. split; [|split].
+    + subst x y z. munfold. apply vec3_eq; cbn [vx vy vz]; ring.
+    + intros v. rewrite (proj1 (midentity_spec v)). apply midentity_spec.
+    + intros v. rewrite (proj2 (midentity_spec v)). apply midentity_spec.
+  - destruct (rot_to_z_quat x y z Hn Hz Hz1) as [u [Hu [Hu2 HM]]].
+    subst M. rewrite HM. split.
+    + apply quat_maps_normal; assumption.
+    + apply quat_orthogonal. etransitivity; [|exact Hu2]. ring.
+Qed.
+
+Lemma xy_round_trip_gen (M : mat) (n tr p : vR) :
+  mdot NumR M n = zaxis NumR -> (forall v, mdot NumR (mtranspose M) (mdot NumR M v) = v) ->
+  n ·  (p +v tr) = 0 -> to_plane NumR M tr (to_xy NumR M tr p) = p.
+Proof.
+  intros Hn Ho Hp.
+  assert (Hr3 : r3 M = n).
+  { rewrite <- (Ho n), Hn. destruct M as [[a1 a2 a3] [b1 b2 b3] [c1 c2 c3]].
+    munfold. apply vec3_eq; cbn [vx vy vz]; ring. }
+  assert (Hq : to_xy NumR M tr p = mdot NumR M (p +v tr)).
+  { unfold to_xy. cbn zeta. apply vec3_eq; cbn [vx vy vz]; try reflexivity.
+    unfold mdot. cbn [vz nzero NumR]. rewrite Hr3. symmetry. exact Hp. }
+  unfold to_plane. rewrite Hq, Ho. vunfold. apply vec3_eq; cbn [vx vy vz]; ring.
+Qed.
+
+Lemma xy_round_trip : forall n tr p : vR, vsqnorm NumR n = 1 -> vz n <> -1 ->
+  n ·  (p +v tr) = 0 ->
+  let M := rot_to_z NumR n in to_plane NumR M tr (to_xy NumR M tr p) = p.
+Proof.
+  intros n tr p Hn Hz Hp M. destruct (rot_to_z_spec n Hn Hz) as [H1 [H2 _]].
+  exact (xy_round_trip_gen M n tr p H1 H2 Hp).
+Qed.
+
+Lemma minus_z_degenerate : let M := rot_to_z NumR (mkv 0 0 (-1)) in mdot NumR M (mkv 0 0 (-1)) <> zaxis NumR.
+Proof.
+  intros M HM.
+  assert (Hz : vz (mdot NumR M (mkv 0 0 (-1))) = -1).
+  { subst M. unfold rot_to_z, zaxis, vcross, vdot.
+    cbn [vx vy vz neqb nadd nsub nmul ndiv nsqrt nzero none_ NumR].
+    destruct (Reqb_spec (0 * 0 + 0 * 0 + 1 * -1) 1) as [He|_]; [exfalso; lra|].
+    set (r := sqrt _). clearbody r. munfold. unfold Rdiv. ring. }
+  rewrite HM in Hz. unfold zaxis in Hz. cbn [vz none_ NumR] in Hz. lra.
 Qed.
